@@ -50,6 +50,11 @@ def run(ctx):
     loops = cfg.loops()
     heads = [h for h, blocks in loops.items() if pb in blocks]
     nb = next((n for n, _ in nexts if any(n in loops[h] for h in heads)), None)
+    staged = prepared_list(fl, nb) if nb is not None else []
+    if staged:
+        # two passes: the first decides per local file and stores a record, the second sends the records. What is sent is then
+        # read out of a list - which entry a record came from is in the data
+        ctx.undecided('C13.R1', 'hub_sync sends from a list it prepared in an earlier pass: that every differing local file gets a record, and that a record pairs one entry with its own digest, is not decided')
     # iterated collection = discover_local_fingerprints(local_root)
     it_ok = False
     for n, nt in nexts:
@@ -61,7 +66,8 @@ def run(ctx):
                not any(x.kind == 'call' and x.key != 'meta::discover_local_fingerprints' for x in io):
                 it_ok = True
     root_ok = all(all(x.kind == 'param' and x.key == 1 for x in fl.origins(dt['args'][0])) for _, dt in disc)
-    ctx.check(it_ok and root_ok, 'C13.R1', 'hub_sync:iterates-local-map', 'for (rel, fp) in &discover_local_fingerprints(local_root)',
+    if not staged:
+      ctx.check(it_ok and root_ok, 'C13.R1', 'hub_sync:iterates-local-map', 'for (rel, fp) in &discover_local_fingerprints(local_root)',
               'hub_sync does not iterate the complete local fingerprint map', term_loc(b, nb) if nb is not None else loc(b, b.lo))
     # skip edge
     equal = set()
@@ -81,7 +87,8 @@ def run(ctx):
             r = cfg.reach(t, cut_edges=list(equal), cut_blocks=set(put_blocks) | errs)
             if r & (set(heads) | set(cfg.exits())):
                 covered = False
-    ctx.check(covered, 'C13.R1', 'hub_sync:skip-or-put', 'each iteration passes the equal edge (skip) or the put call',
+    if not staged:
+      ctx.check(covered, 'C13.R1', 'hub_sync:skip-or-put', 'each iteration passes the equal edge (skip) or the put call',
               'a local file can be neither proven equal to the listing nor Put (it would silently be missing on the hub)', term_loc(b, pb))
     # ---- R2
     from_loop = lambda os_: any(o.kind == 'call' and o.key == 'std::iter::Iterator::next' for o in os_)
@@ -102,7 +109,8 @@ def run(ctx):
         if not (from_loop(rel_o) and joined and hash_ok):
             args_ok = False
             bad_put = pb_
-    ctx.check(args_ok, 'C13.R2', 'hub_sync:put-args', 'put(rel, listed, local_root.join(rel), fp.blake3) from one loop entry',
+    if not staged:
+      ctx.check(args_ok, 'C13.R2', 'hub_sync:put-args', 'put(rel, listed, local_root.join(rel), fp.blake3) from one loop entry',
               'the Put does not pair the path, the local file and its digest of the same local entry', term_loc(b, bad_put if bad_put is not None else pb))
     p = F.body('hub::HubClient::put')
     if p is None:
